@@ -40,7 +40,9 @@ class GL:
         self.may_oob = False
         self.features = set()
         self.call_depth = 0
-        self.leaky = False     # scope-loose programs: names of closed scopes may stay visible to the generator
+        self.closed_names = []   # names whose scope has ended (legally reusable)
+        self.earlier_locals = [] # local names of the functions generated so far
+        self.leaky = 0         # scope-loose programs: names of closed scopes may stay visible to the generator
 
     # -- helpers -----------------------------------------------------------------------
     def d(self, s):
@@ -391,6 +393,16 @@ class GL:
         else:
             ty = self.any_type(local=True)
         name = self.fresh("v")
+        reusable = [n for n in self.closed_names if n not in self.visible()]
+        if reusable and self.chance(18):
+            # legal reuse of a name whose scope has ended, usually with another type
+            name = self.pick(reusable)
+            self.features.add("name-of-a-closed-scope-reused")
+        if self.leaky and self.globals and self.chance(12):
+            # name-loose: the local carries the name of a global (the front end must refuse the redeclaration)
+            name = self.pick(sorted(self.globals))
+            self.leaky -= 1
+            self.features.add("local-named-like-a-global")
         init = None
         if ty[0] in "svm" and self.chance(65):
             init = self.of_type(ty, 2)
@@ -438,7 +450,9 @@ class GL:
 
     def _close_scope(self):
         sc = self.scopes.pop()
-        if self.leaky and sc and self.scopes and self.chance(45):
+        self.closed_names.extend(n for n in sc if n not in self.closed_names)
+        if self.leaky and sc and self.scopes and self.chance(25):
+            self.leaky -= 1
             # the generator (not the language) keeps the names: later statements may name variables whose scope has
             # ended - the front end must refuse those programs
             self.scopes[-1].update(sc)
@@ -449,6 +463,23 @@ class GL:
         r = self.d(st.integers(0, 99))
         if depth <= 0:
             r = r % 62
+        if self.leaky and self.chance(10):
+            # a declaration as the unbraced body of an if / while: its scope ends with that statement
+            d = self.decl()
+            if isinstance(d, M.Decl):
+                self.leaky -= 1
+                self.features.add("unbraced-declaration-body")
+                cond = self.scalar(1)
+                if d.ty[0] == "s" and self.chance(50):
+                    # the condition names the variable its own unbraced body declares (a use before the declaration)
+                    cond = M.Var(d.name, d.ty)
+                st_ = M.If(cond, d) if self.chance(55) else M.While(M.Bin("<", cond, M.Lit(0, INT, "0")), d)
+                if d.ty[0] in "svm" and self.chance(70):
+                    # ... and the name is used right behind that statement
+                    v = M.Var(d.name, d.ty)
+                    return M.Block([st_, M.ExprStmt(M.Assign(v, "=", v))])
+                return st_
+            return d
         if r < 20:
             return self.decl()
         if r < 46:
@@ -472,19 +503,6 @@ class GL:
                     self.features.add("void-call")
                     return M.ExprStmt(M.Call(f.name, args, M.VOID, i))
             return M.ExprStmt(self.scalar(2))
-        if r < 62 and self.leaky and self.chance(40):
-            # a declaration as the unbraced body of an if / while: its scope ends with that statement
-            d = self.decl()
-            if isinstance(d, M.Decl):
-                self.features.add("unbraced-declaration-body")
-                cond = self.scalar(1)
-                st_ = M.If(cond, d) if self.chance(70) else M.While(M.Bin("<", cond, M.Lit(0, INT, "0")), d)
-                if d.ty[0] in "svm" and self.chance(70):
-                    # ... and the name is used right behind that statement
-                    v = M.Var(d.name, d.ty)
-                    return M.Block([st_, M.ExprStmt(M.Assign(v, "=", v))])
-                return st_
-            return d
         if r < 62:
             if self.ret_ty == M.VOID:
                 return M.If(self.scalar(1), M.Block([M.Return(None)]))
@@ -550,6 +568,19 @@ class GL:
             else:
                 ty = M.struct(self.pick([s[0] for s in self.structs]))
             nm = "p%d" % k
+            cands = [n for n in self.earlier_locals if n not in self.globals and n not in [x for _, x in params]]
+            if cands and self.chance(15):
+                # legal: a parameter spelled like a local of an earlier function
+                nm = self.pick(sorted(set(cands)))
+                self.features.add("parameter-named-like-a-local-of-an-earlier-function")
+            if self.leaky and self.globals and self.chance(10):
+                # name-loose: a parameter named like a global
+                nm = self.pick(sorted(self.globals))
+                if nm in [n for _, n in params]:
+                    nm = "p%d" % k
+                else:
+                    self.leaky -= 1
+                    self.features.add("parameter-named-like-a-global")
             params.append((ty, nm))
             self.declare(nm, ty)
         r = self.d(st.integers(0, 99))
@@ -566,7 +597,9 @@ class GL:
                 stmts.append(M.Return(self.of_type(self.ret_ty, 2)))
             else:
                 self.features.add("non-void-without-final-return")
-        self.scopes.pop()
+        body_scope = self.scopes.pop()
+        self.earlier_locals += [n for n in list(body_scope) + self.closed_names if n not in self.earlier_locals]
+        self.closed_names = []
         return M.Func(name, params, self.ret_ty, M.Block(stmts), exported)
 
 
@@ -589,7 +622,7 @@ class LooseCase(gen.Case):
 @st.composite
 def loose_case(draw, n_inputs=2):
     g = GL(draw)
-    g.leaky = g.chance(15)
+    g.leaky = draw(st.sampled_from([1, 1, 2])) if g.chance(15) else 0   # how many scope-loose constructs the program may get
     if g.chance(55):
         inner = None
         if g.chance(35):
@@ -600,7 +633,8 @@ def loose_case(draw, n_inputs=2):
         for k in range(draw(st.integers(1, 4))):
             r = draw(st.integers(0, 99))
             ft = (g.pick(SCALARS) if r < 45 else g.pick(VECS) if r < 70 else g.pick(MATS) if r < 78 else
-                  M.arr(g.pick(SCALARS), (draw(st.integers(1, 3)),)) if r < 90 else (inner or g.pick(SCALARS)))
+                  M.arr(g.pick(SCALARS), (draw(st.integers(1, 3)),)) if r < 86 else
+                  (M.arr(inner, (draw(st.integers(1, 2)),)) if (inner and r < 92) else (inner or g.pick(SCALARS))))
             fields.append((ft, "f%d" % k))
         g.structs.append(("S0", fields))
     globs = []
